@@ -167,6 +167,11 @@ func ruleListItemChildCoverage(c *eng.Ctx) {
 			if cal == nil || !walkers[cal] {
 				return false
 			}
+			// every child of that kind is to be descended into: the call sits in the loop over the children
+			// (a helper that picks the first match and returns it covers one sub-list, not all)
+			if !eng.InLoop(ci.Block()) {
+				return false
+			}
 			for _, a := range ci.Common().Args {
 				if a == self {
 					return false
@@ -1403,6 +1408,35 @@ func ruleMemoOnSuccess(c *eng.Ctx) {
 							continue
 						}
 						cleared := false
+						// the reset may sit in a local closure or helper that builds the error (return fail("…"))
+						eng.Instrs(l, false, func(in ssa.Instruction) {
+							call, ok := in.(ssa.CallInstruction)
+							if !ok || cleared {
+								return
+							}
+							if !(call.Block() == r.Block() || call.Block().Dominates(r.Block())) || !(reach[call.Block()] || call.Block() == s.Block()) {
+								return
+							}
+							if call.Block() == s.Block() && !eng.InstrDominates(s, call) {
+								return
+							}
+							var cal *ssa.Function
+							if mc, ok := call.Common().Value.(*ssa.MakeClosure); ok {
+								cal, _ = mc.Fn.(*ssa.Function)
+							} else if sc := call.Common().StaticCallee(); sc != nil && sc.Pkg == l.Pkg {
+								cal = sc
+							}
+							if cal == nil || cal.Blocks == nil {
+								return
+							}
+							eng.Instrs(cal, false, func(in2 ssa.Instruction) {
+								if st, ok := in2.(*ssa.Store); ok && isNilConst(st.Val) {
+									if fr, ok := eng.AsField(st.Addr); ok && fr.Field == f {
+										cleared = true
+									}
+								}
+							})
+						})
 						for _, z := range resets {
 							if (z.Block() == r.Block() || z.Block().Dominates(r.Block())) && (reach[z.Block()] || z.Block() == s.Block()) {
 								if z.Block() != s.Block() || eng.InstrDominates(s, z) {
@@ -1827,5 +1861,278 @@ func ruleByteAssembly(c *eng.Ctx) {
 			}
 			c.Check(bad == "", R, fmt.Sprintf("%s#assembly%d", eng.FuncName(fn), n), root.Pos(), "each position and shift used once", "in a value assembled from consecutive bytes "+bad+": one byte of the value is left out")
 		})
+	}
+}
+
+// R18.9 [C18]
+func rulePathTrimCutset(c *eng.Ctx) {
+	const R = "R18.9-PATH-TRIM-CUTSET"
+	c.Rule(R, "a part name (Href, Target) is never shortened with strings.TrimLeft/TrimRight/Trim and a cut set of several characters: the second argument is a set, not a prefix, so TrimLeft(href, \"./\") also eats the dots of \"../text/ch.xhtml\" and the part resolves to the wrong place and is dropped (TrimPrefix/TrimSuffix is what was meant)", 0, 1)
+	for _, fn := range c.P.ModuleFuncs() {
+		n := 0
+		for _, ci := range eng.Calls(fn, false, func(name string, _ ssa.CallInstruction) bool {
+			return name == "strings.TrimLeft" || name == "strings.TrimRight" || name == "strings.Trim"
+		}) {
+			cut, ok := eng.ConstString(ci.Common().Args[1])
+			if !ok || len(cut) < 2 {
+				continue
+			}
+			distinct := map[rune]bool{}
+			for _, r := range cut {
+				distinct[r] = true
+			}
+			if len(distinct) < 2 {
+				continue
+			}
+			isPath := false
+			for w := range eng.Slice(ci.Common().Args[0], func(call *ssa.Call) bool { return strings.HasPrefix(eng.CalleeName(call), "strings.") }) {
+				if fr, ok := eng.AsField(w); ok && (fr.Field == "Href" || fr.Field == "Target" || fr.Field == "FullPath") {
+					isPath = true
+				}
+			}
+			if !isPath {
+				continue
+			}
+			n++
+			c.Viol(R, fmt.Sprintf("%s#trim%d", eng.FuncName(fn), n), ci.Pos(), fmt.Sprintf("a part name is trimmed with the cut set %q: every leading/trailing character of that set is removed, not the prefix", cut))
+		}
+	}
+}
+
+// R19.13 [C19]
+func ruleNoDoubleDecode(c *eng.Ctx) {
+	const R = "R19.13-NO-DOUBLE-DECODE"
+	c.Rule(R, "text taken from the parsed HTML tree (html.Node.Data) is not unescaped again: the parser already decoded character references once, and a second pass turns the literal text \"&lt;\" of the source \"&amp;lt;\" into \"<\"", 0, 1)
+	for _, fn := range c.P.ModuleFuncs() {
+		n := 0
+		for _, ci := range eng.Calls(fn, false, func(name string, _ ssa.CallInstruction) bool {
+			return strings.HasSuffix(name, "html.UnescapeString")
+		}) {
+			fromNode := false
+			for w := range eng.SliceInter(ci.Common().Args[0], nil, []*ssa.Function{fn}) {
+				if _, ok := htmlNodeField(w, "Data"); ok {
+					fromNode = true
+				}
+				if fr, ok := eng.AsField(w); ok && fr.Field == "Data" && strings.HasSuffix(fr.Struct, "html.Node") {
+					fromNode = true
+				}
+			}
+			// a helper that receives the node or its text: judged by its call sites
+			if !fromNode {
+				for _, g := range c.P.ModuleFuncs() {
+					if g.Pkg != fn.Pkg {
+						continue
+					}
+					for _, site := range eng.Calls(g, false, func(string, ssa.CallInstruction) bool { return true }) {
+						if site.Common().StaticCallee() != fn {
+							continue
+						}
+						for _, a := range site.Common().Args {
+							for w := range eng.Slice(a, nil) {
+								if fr, ok := eng.AsField(w); ok && strings.HasSuffix(fr.Struct, "html.Node") {
+									fromNode = true
+								}
+								if strings.HasSuffix(eng.TypeName(w.Type()), "html.Node") {
+									fromNode = true
+								}
+							}
+						}
+					}
+				}
+			}
+			if !fromNode {
+				continue
+			}
+			n++
+			c.Viol(R, fmt.Sprintf("%s#unescape%d", eng.FuncName(fn), n), ci.Pos(), "text of a parsed HTML node is passed to html.UnescapeString: entities are decoded twice")
+		}
+	}
+}
+
+// R14.10 [C14]
+func ruleShortLoop(c *eng.Ctx) {
+	const R = "R14.10-SHORT-LOOP"
+	c.Rule(R, "a loop that scans a slice with an index running to len(x)-k (k >= 1) also looks at the elements it stops short of (x[i+1] for a pairwise scan, or x[len(x)-1] after the loop): otherwise the last element is never examined, and a predicate over the slice (is the chunk in this section?) answers no for it", 0, 1)
+	for _, fn := range c.P.ModuleFuncs() {
+		if fn.Blocks == nil {
+			continue
+		}
+		n := 0
+		eng.Instrs(fn, false, func(in ssa.Instruction) {
+			iff, ok := in.(*ssa.If)
+			if !ok {
+				return
+			}
+			cmp, ok := iff.Cond.(*ssa.BinOp)
+			if !ok || cmp.Op != token.LSS {
+				return
+			}
+			ph, isInd := eng.Induction(cmp.X)
+			if !isInd || ph == nil || ph != cmp.X {
+				return
+			}
+			// bound = len(x) - k
+			sub, ok := cmp.Y.(*ssa.BinOp)
+			if !ok || sub.Op != token.SUB {
+				return
+			}
+			k, isC := eng.ConstInt(sub.Y)
+			if !isC || k < 1 {
+				return
+			}
+			call, ok := sub.X.(*ssa.Call)
+			if !ok {
+				return
+			}
+			bi, ok := call.Call.Value.(*ssa.Builtin)
+			if !ok || bi.Name() != "len" {
+				return
+			}
+			x := call.Call.Args[0]
+			// how is x indexed in the function?
+			atI, beyond := false, false
+			eng.Instrs(fn, false, func(in2 ssa.Instruction) {
+				var base, idx ssa.Value
+				switch a := in2.(type) {
+				case *ssa.IndexAddr:
+					base, idx = a.X, a.Index
+				case *ssa.Index:
+					base, idx = a.X, a.Index
+				case *ssa.Slice:
+					if a.X == x || eng.SameValue(a.X, x) {
+						beyond = true // re-sliced: other elements are reached some other way
+					}
+					return
+				case *ssa.Range:
+					if a.X == x || eng.SameValue(a.X, x) {
+						beyond = true
+					}
+					return
+				default:
+					return
+				}
+				if base != x && !eng.SameValue(base, x) {
+					return
+				}
+				if idx == ssa.Value(ph) {
+					atI = true
+					return
+				}
+				beyond = true // i+1, len(x)-1, a constant, another variable …
+			})
+			if !atI || beyond {
+				return
+			}
+			n++
+			c.Viol(R, fmt.Sprintf("%s#loop%d", eng.FuncName(fn), n), cmp.Pos(), fmt.Sprintf("the loop stops %d short of the end of the slice and nothing else looks at the remaining element(s)", k))
+		})
+	}
+}
+
+// R18.10 [C18]
+func rulePositionalDefaultOnlyWhenUndeclared(c *eng.Ctx) {
+	const R = "R18.10-POSITIONAL-DEFAULT"
+	c.Rule(R, "the XLSX reader guesses a worksheet part from the tab position (worksheets/sheet<N>.xml) only when the workbook gives no relationship target for the sheet (the looked-up target is empty): used as a fallback for a declared target that cannot be read, it loads an unrelated leftover part under the declared sheet's name", 1, 0)
+	fn := c.P.Func("xlsx.(*Reader).parseWorksheets")
+	if fn == nil {
+		c.Undec(R, "xlsx.(*Reader).parseWorksheets", token.NoPos, "anchor not found")
+		return
+	}
+	n := 0
+	for _, h := range eng.Cluster(fn, 1) {
+		for _, ci := range eng.Calls(h, false, func(name string, _ ssa.CallInstruction) bool { return name == "fmt.Sprintf" }) {
+			f, ok := eng.ConstString(ci.Common().Args[0])
+			if !ok || !strings.Contains(f, "sheet%d") {
+				continue
+			}
+			n++
+			guarded := eng.GuardedBy(h, ci.Block(), func(ft eng.Fact) bool {
+				op, x, y, ok := ft.Cmp()
+				if !ok || op != token.EQL {
+					return false
+				}
+				for _, s := range [][2]ssa.Value{{x, y}, {y, x}} {
+					if cs, ok := eng.ConstString(s[1]); ok && cs == "" {
+						for w := range eng.Slice(s[0], nil) {
+							if _, isLk := w.(*ssa.Lookup); isLk {
+								return true
+							}
+						}
+					}
+				}
+				return false
+			})
+			c.Check(guarded, R, fmt.Sprintf("%s#default-name%d", eng.FuncName(h), n), ci.Pos(), "only when no target is declared", "a worksheet part name is made up from the tab position although the workbook declares a target for the sheet: when that target is missing from the archive another part is presented under this sheet's name, and the page count exceeds the number of declared, readable parts")
+		}
+	}
+	if n == 0 {
+		c.Ok(R, "xlsx.(*Reader).parseWorksheets#default-name", fn.Pos(), "no positional default is constructed")
+	}
+}
+
+// R1.8 [C01] / R5.9 [C05]
+func ruleFilterParmsParallelC01(c *eng.Ctx) { filterParmsParallel(c, "R1.8-FILTER-PARMS-PARALLEL") }
+func ruleFilterParmsParallelC05(c *eng.Ctx) { filterParmsParallel(c, "R5.9-FILTER-PARMS-PARALLEL") }
+
+func filterParmsParallel(c *eng.Ctx, R string) {
+	c.Rule(R, "Stream.Decode dispatches on the /Filter object as the dictionary holds it; when it replaces a one-element /Filter array by its element, /DecodeParms is replaced by its element in the same way: /Filter and /DecodeParms are parallel, and a name paired with a parameter array loses the predictor parameters, so the stream is inflated but never un-predicted", 1, 0)
+	fn := c.P.Func("core.(*Stream).Decode")
+	if fn == nil {
+		c.Undec(R, "core.(*Stream).Decode", token.NoPos, "anchor not found")
+		return
+	}
+	fromElement := func(v ssa.Value) bool { // some origin of v is an element of an array object
+		for w := range eng.Slice(v, nil) {
+			if _, ok := w.(*ssa.IndexAddr); ok {
+				return true
+			}
+			if _, ok := w.(*ssa.Index); ok {
+				return true
+			}
+		}
+		return false
+	}
+	getOf := func(v ssa.Value, key string) bool {
+		for w := range eng.Slice(v, nil) {
+			if call, ok := w.(*ssa.Call); ok && strings.HasSuffix(eng.CalleeName(call), "core.Dict.Get") && len(call.Call.Args) == 2 {
+				if s, ok := eng.ConstString(call.Call.Args[1]); ok && s == key {
+					return true
+				}
+			}
+		}
+		return false
+	}
+	n := 0
+	for _, h := range eng.Cluster(fn, 1) {
+		eng.Instrs(h, false, func(in ssa.Instruction) {
+			ta, ok := in.(*ssa.TypeAssert)
+			if !ok || !strings.HasSuffix(eng.TypeName(ta.AssertedType), "core.Name") || !getOf(ta.X, "Filter") {
+				return
+			}
+			// only the dispatch on the whole object (the Get result, or a merge that may have rewritten it); the
+			// per-element assertion inside the chain loop pairs element i with parameter i by construction
+			switch ta.X.(type) {
+			case *ssa.Call, *ssa.Phi:
+			default:
+				return
+			}
+			if fromElement(ta.X) && !getOf(ta.X, "DecodeParms") {
+				// the tested object may be an element of the /Filter array: the parameters must be unwrapped too
+				n++
+				parmsUnwrapped := false
+				eng.Instrs(h, false, func(in2 ssa.Instruction) {
+					if ph, ok := in2.(*ssa.Phi); ok && getOf(ph, "DecodeParms") && fromElement(ph) {
+						parmsUnwrapped = true
+					}
+				})
+				c.Check(parmsUnwrapped, R, fmt.Sprintf("%s#filter-object%d", eng.FuncName(h), n), ta.Pos(), "/DecodeParms is unwrapped with /Filter", "a one-element /Filter array is replaced by its element before the dispatch, but /DecodeParms is not: the single-filter path receives a parameter array and drops it")
+				return
+			}
+			n++
+			c.Ok(R, fmt.Sprintf("%s#filter-object%d", eng.FuncName(h), n), ta.Pos(), "the dispatch tests the /Filter object itself")
+		})
+	}
+	if n == 0 {
+		c.Undec(R, "core.(*Stream).Decode#filter-object", fn.Pos(), "no dispatch on the type of the /Filter object found")
 	}
 }
